@@ -237,6 +237,15 @@ class SettingsV:
     pass
 
 
+class ListIter:
+    """A one-shot iterator over a concrete sequence (`iter(xs)`, `reversed(xs)`): `next()` advances it, a loop / comprehension / list() continues from
+    where it stands and leaves it exhausted - iterating it a second time yields nothing."""
+
+    def __init__(self, items: list):
+        self.items = items
+        self.pos = 0
+
+
 class Manager:
     pass
 
@@ -440,7 +449,7 @@ class AbsExec:
                 return self.hooks[e.id]
             if e.id in BUILTIN_EXC:
                 return ("exc-class", e.id)
-            if e.id in ("len", "reversed", "list", "tuple", "any", "all", "sum", "bool", "isinstance", "set", "frozenset", "iter", "str", "enumerate", "sorted", "min", "max", "range", "type", "locals", "vars", "setattr", "getattr", "hasattr", "delattr", "dict", "zip", "round", "pow", "abs", "int", "float", "map", "filter"):
+            if e.id in ("len", "reversed", "list", "tuple", "any", "all", "sum", "bool", "isinstance", "set", "frozenset", "iter", "str", "enumerate", "sorted", "min", "max", "range", "type", "locals", "vars", "setattr", "getattr", "hasattr", "delattr", "dict", "zip", "round", "pow", "abs", "int", "float", "map", "filter", "format"):
                 return ("builtin", e.id)
             if e.id in ("functools", "operator", "itertools") and "stdlib:off" not in self.hooks:
                 return stdlib(e.id)
@@ -455,10 +464,13 @@ class AbsExec:
             return Opaque(e.id)
         if isinstance(e, ast.JoinedStr):
             parts: list[Any] = []
-            try:
-                for v in e.values:
+            failed = False
+            for v in e.values:  # every part is evaluated (its effects - an iterator consumed - happen) even when another one is outside the model
+                try:
                     parts.append(v.value if isinstance(v, ast.Constant) else self.ev(v.value, env))  # type: ignore[attr-defined]
-            except (Unknown, Internal, Raised):
+                except (Unknown, Internal, Raised):
+                    failed = True
+            if failed:
                 return Opaque("fstring")
             if self.concrete_strings and all(isinstance(x, (str, int)) and not isinstance(x, bool) for x in parts) and \
                     not any(getattr(v, "format_spec", None) or getattr(v, "conversion", -1) not in (-1,) for v in e.values if isinstance(v, ast.FormattedValue)):
@@ -675,6 +687,8 @@ class AbsExec:
             if isinstance(a, list) and isinstance(b, list) and isinstance(e.op, ast.Add):
                 return a + b
             strish = lambda v: isinstance(v, (Opaque, str, FString)) or (isinstance(v, tuple) and v and v[0] in ("joined", "escaped"))  # noqa: E731
+            if self.concrete_strings and isinstance(a, str) and isinstance(b, str) and isinstance(e.op, ast.Add):
+                return a + b
             if strish(a) and strish(b) and isinstance(e.op, ast.Add):
                 pa = a.parts if isinstance(a, FString) else (a,)
                 pb = b.parts if isinstance(b, FString) else (b,)
@@ -739,6 +753,10 @@ class AbsExec:
             got = hook(v)
             if got is not None:
                 return got
+        if isinstance(v, ListIter):
+            rest = v.items[v.pos:]
+            v.pos = len(v.items)
+            return rest
         if isinstance(v, (list, tuple)):
             return list(v)
         if isinstance(v, (set, frozenset)):
@@ -759,7 +777,7 @@ class AbsExec:
             return lambda ex_, e_, args, kw, f=f"{v.name}.{name}": App(f, tuple(freeze(a) for a in args), tuple(sorted((k, freeze(x)) for k, x in kw.items())))
         if isinstance(v, SettingsV):
             if name == "debugging":
-                return False
+                return getattr(self, "debugging", False)
             if name == "factory_manager":
                 return Manager()
             if name == "logger":
@@ -818,7 +836,12 @@ class AbsExec:
     def call(self, e: ast.Call, env: dict[str, Any]) -> Any:
         f = self.ev(e.func, env)
         if isinstance(f, tuple) and f and f[0] == "bound" and isinstance(f[1], Logger):
-            return None  # logging: arguments are not evaluated (they may format anything)
+            for a in list(e.args) + [k.value for k in e.keywords]:  # logging: the message may format anything, but evaluating it has its effects (an iterator consumed)
+                try:
+                    self.ev(a.value if isinstance(a, ast.Starred) else a, env)
+                except (Unknown, Internal, Raised):
+                    pass
+            return None
         args: list[Any] = []
         for a in e.args:
             if isinstance(a, ast.Starred):
@@ -1005,7 +1028,7 @@ class AbsExec:
         if name == "len" and isinstance(args[0], MObj) and "__len__" in args[0].fields:
             return args[0].fields["__len__"]
         if name == "reversed" and isinstance(args[0], (list, tuple)):
-            return list(reversed(args[0]))
+            return ListIter(list(reversed(args[0])))
         if name == "sorted" and args:
             kw_ = getattr(self, "_call_kw", {})
             return self.sort_values(list(self.iterate(args[0], e)), kw_.get("key"), bool(kw_.get("reverse", False)), e)
@@ -1024,7 +1047,10 @@ class AbsExec:
             return all(self.truth(x, e) for x in self.iterate(args[0], e))
         if name == "bool":
             return self.truth(args[0], e)
-        if name == "str":
+        if name in ("str", "format"):
+            if self.concrete_strings and len(args) >= 1 and isinstance(args[0], (int, str)) and not isinstance(args[0], bool) and (len(args) == 1 or args[1] in ("", "d", "s")) \
+                    and not (len(args) > 1 and name == "str"):
+                return str(args[0])
             return Opaque("text")
         if name == "enumerate" and isinstance(args[0], TokenStream):
             return TokenStream(enumerated=True)
